@@ -108,7 +108,7 @@ def copySizeOf (o : Impl.Opts) (r : Impl.Root) (op : Impl.Op) : Nat :=
       | .done con _ => some { r with con := con }
       | .doneSelf s _ => some { r with self := s }
       | _ => none
-    match after r (Impl.copySource o r frm) with
+    match after r (if frm = [] then (if Impl.isNullN r.con then .fail .invalid else (.done r.con r.con : Impl.Walk Impl.Node)) else Impl.copySource o r frm) with
     | some r1 =>
       match after r1 (Impl.withPath o r1 op.path (fun _ con _ => (.ok (con, ()) : Impl.Outcome (Impl.Node × Unit)))) with
       | some r2 =>
